@@ -231,30 +231,35 @@ def worker(args):
     while len(cases) < count:
         n = r.choice([1, 2, 3, 5, 8, 12, 20, len(kinds)])
         cases.append(r.sample(kinds, min(n, len(kinds))))
-    reqs, meta = [], {}
-    for n, ks in enumerate(cases):
-        xml, parts = build(r, pool, ks)
-        fb = r.choice([None, None, "FALLBACK-TEXT-%d I sent you an encrypted message" % n])
-        q = {"n": n, "xml": xml}
-        if fb is not None:
-            q["fallbackBody"] = fb
-        reqs.append(q)
-        meta[n] = (xml, parts, fb)
-    resp, crashes = vf.drive(binary, reqs)
     viol = []
     stats = collections.Counter()
     seen_kinds = set()
-    for rq, info in crashes:
-        viol.append(("crash " + vf.crash_sig(info), "sanitizer report / abnormal exit while splitting a message", {"request": rq, "stderr": info["stderr"][-3000:]}))
-    for n, (xml, parts, fb) in meta.items():
-        o = resp.get(n)
-        if not o or o.get("bad_input"):
-            continue
-        stats["messages"] += 1
-        for k, _ in parts:
-            seen_kinds.add(k)
-        judge(o, parts, fb, viol, stats, xml)
-    return viol, dict(stats), sorted("%s|%s" % k for k in seen_kinds), (reqs[-1]["xml"] if reqs else None)
+    last = None
+    CH = 4000      # (bounded memory: requests, answers and parsed documents of one chunk at a time)
+    for c0 in range(0, len(cases), CH):
+        reqs, meta = [], {}
+        for n, ks in enumerate(cases[c0:c0 + CH], c0):
+            xml, parts = build(r, pool, ks)
+            fb = r.choice([None, None, "FALLBACK-TEXT-%d I sent you an encrypted message" % n])
+            q = {"n": n, "xml": xml}
+            if fb is not None:
+                q["fallbackBody"] = fb
+            reqs.append(q)
+            meta[n] = (xml, parts, fb)
+        resp, crashes = vf.drive(binary, reqs)
+        for rq, info in crashes:
+            viol.append(("crash " + vf.crash_sig(info), "sanitizer report / abnormal exit while splitting a message", {"request": rq, "stderr": info["stderr"][-3000:]}))
+        for n, (xml, parts, fb) in meta.items():
+            o = resp.get(n)
+            if not o or o.get("bad_input"):
+                continue
+            stats["messages"] += 1
+            for k, _ in parts:
+                seen_kinds.add(k)
+            if len(viol) < 200:
+                judge(o, parts, fb, viol, stats, xml)
+        last = reqs[-1]["xml"] if reqs else last
+    return viol, dict(stats), sorted("%s|%s" % k for k in seen_kinds), last
 
 
 def wire_worker(args):
